@@ -11,6 +11,10 @@ pub closed spec fn is_whole(q: int) -> bool { q % D() == 0 }
 pub closed spec fn whole(q: int) -> int { q / D() }
 pub closed spec fn dsub(a: int, b: int) -> int { a - b }
 pub uninterp spec fn ddiv(a: int, b: int) -> int;
+/// product with an operand that carries the full 28 digits of a division result: rust_decimal rounds it to 96 bits of
+/// mantissa, so it is NOT the exact product (assumption audit, clause A-DEC-DIV-14M); uninterpreted, with the facts of
+/// axiom_rmul
+pub uninterp spec fn rmul(a: int, b: int) -> int;
 pub closed spec fn round_half_away(x: int) -> int {
     if x >= 0 { (2 * x + D()) / (2 * D()) } else { -((2 * (-x) + D()) / (2 * D())) }
 }
@@ -234,11 +238,6 @@ pub broadcast proof fn lemma_whole_pos(a: int)
 {
     assert(a / D() >= 1) by(nonlinear_arith) requires a % D() == 0, a > 0, D() == 10000000000000000000000000000;
 }
-pub broadcast proof fn lemma_dmul_comm(a: int, b: int)
-    ensures #[trigger] dmul(a, b) == dmul(b, a)
-{
-    assert(a * b == b * a) by(nonlinear_arith);
-}
 pub broadcast group dec_lemmas {
     lemma_dmul_of_int, lemma_dmul_of_int_left, lemma_dmul_whole, lemma_whole_of_int, lemma_of_int_whole, lemma_of_int_sign,
     lemma_whole_dsub, lemma_round_sign, lemma_round_zero, lemma_round_whole, lemma_pmul_zero, lemma_whole_zero,
@@ -259,6 +258,24 @@ pub broadcast proof fn axiom_ddiv(a: int, b: int)
             a == 0 ==> ddiv(a, b) == 0,
             a == b ==> ddiv(a, b) == D(),
 {}
+/// assumed facts about the rounded product ratio * amount (A-DEC-DIV; tested on the real crate by the audit):
+/// symmetric; exact at the end points 0 and 1; between 0 and the amount for a ratio in [0,1]; monotone in the ratio
+#[verifier::external_body]
+pub broadcast proof fn axiom_rmul_comm(a: int, b: int)
+    ensures #[trigger] rmul(a, b) == rmul(b, a)
+{}
+#[verifier::external_body]
+pub broadcast proof fn axiom_rmul(a: int, n: int)
+    requires 0 <= a <= D(), n >= 0
+    ensures 0 <= #[trigger] rmul(a, of_int(n)) <= of_int(n),
+            a == 0 ==> rmul(a, of_int(n)) == 0,
+            a == D() ==> rmul(a, of_int(n)) == of_int(n),
+{}
+#[verifier::external_body]
+pub proof fn axiom_rmul_mono(a1: int, a2: int, n: int)
+    requires 0 <= a1 <= a2 <= D(), n >= 0
+    ensures rmul(a1, of_int(n)) <= rmul(a2, of_int(n))
+{}
 #[verifier::external_body]
 pub proof fn axiom_ddiv_mono(a1: int, a2: int, b: int)
     requires b > 0, 0 <= a1 <= a2 <= b
@@ -268,33 +285,30 @@ pub proof fn axiom_ddiv_mono(a1: int, a2: int, b: int)
 // ---- derived quantities used by the contracts
 pub open spec fn gross(p: int, s: int) -> int { whole(pmul(p, s)) }
 pub open spec fn fee_of(rate_q: int, amount: int) -> int { round_half_away(pmul(rate_q, amount)) }
-/// fee * num / den as the contract forms it: checked_div, checked_mul, round half away from zero
+/// fee * num / den as the contract forms it: checked_div (28 digits), rounded product, round half away from zero
 pub open spec fn prorata(fee: int, num: int, den: int) -> int {
-    round_half_away(dmul(ddiv(of_int(num), of_int(den)), of_int(fee)))
+    round_half_away(rmul(ddiv(of_int(num), of_int(den)), of_int(fee)))
 }
 pub open spec fn pq(s: Seq<char>) -> int { parse_dec(s)->0 }
 
 pub proof fn lemma_prorata_zero(fee: int, den: int)
-    requires den > 0
+    requires den > 0, fee >= 0
     ensures prorata(fee, 0, den) == 0
 {
-    broadcast use dec_lemmas, axiom_ddiv;
+    broadcast use dec_lemmas, axiom_ddiv, axiom_rmul;
     assert(of_int(den) > 0);
     assert(of_int(0) == 0);
     assert(ddiv(of_int(0), of_int(den)) == 0);
-    reveal(dmul);
-    assert(dmul(0, of_int(fee)) == 0) by(nonlinear_arith) requires dmul(0, of_int(fee)) == 0 * of_int(fee) / D(), D() == 10000000000000000000000000000;
+    assert(rmul(0, of_int(fee)) == 0);
 }
 pub proof fn lemma_prorata_full(fee: int, den: int)
     requires den > 0, fee >= 0
     ensures prorata(fee, den, den) == fee
 {
-    broadcast use dec_lemmas, axiom_ddiv;
+    broadcast use dec_lemmas, axiom_ddiv, axiom_rmul;
     assert(of_int(den) > 0);
     assert(ddiv(of_int(den), of_int(den)) == D());
-    assert(D() == of_int(1)) by { reveal(of_int); }
-    assert(dmul(of_int(1), of_int(fee)) == pmul(of_int(fee), 1));
-    assert(pmul(of_int(fee), 1) == of_int(fee)) by { reveal(pmul); }
+    assert(rmul(D(), of_int(fee)) == of_int(fee));
     assert(is_whole(of_int(fee)));
     assert(of_int(fee) >= 0);
 }
@@ -302,17 +316,15 @@ pub proof fn lemma_prorata_nonneg(fee: int, num: int, den: int)
     requires den > 0, 0 <= num <= den, fee >= 0
     ensures prorata(fee, num, den) >= 0
 {
-    broadcast use dec_lemmas, axiom_ddiv;
+    broadcast use dec_lemmas, axiom_ddiv, axiom_rmul;
     lemma_of_int_inj(num, den);
     lemma_of_int_inj(0, num);
     assert(0 <= of_int(num) <= of_int(den));
     assert(of_int(den) > 0);
     let r = ddiv(of_int(num), of_int(den));
-    assert(r >= 0);
-    assert(dmul(r, of_int(fee)) == pmul(r, fee));
-    assert(pmul(r, fee) >= 0);
+    assert(0 <= r <= D());
+    assert(rmul(r, of_int(fee)) >= 0);
 }
-
 pub proof fn lemma_round_mono(x: int, y: int)
     requires 0 <= x <= y
     ensures round_half_away(x) <= round_half_away(y)
@@ -324,18 +336,16 @@ pub proof fn lemma_prorata_mono(fee: int, n1: int, n2: int, den: int)
     requires den > 0, 0 <= n1 <= n2 <= den, fee >= 0
     ensures prorata(fee, n1, den) <= prorata(fee, n2, den)
 {
-    broadcast use dec_lemmas, axiom_ddiv;
+    broadcast use dec_lemmas, axiom_ddiv, axiom_rmul;
     lemma_of_int_inj(n1, n2); lemma_of_int_inj(n2, den); lemma_of_int_inj(0, n1);
     assert(of_int(den) > 0);
     assert(0 <= of_int(n1) <= of_int(n2) <= of_int(den));
     axiom_ddiv_mono(of_int(n1), of_int(n2), of_int(den));
     let r1 = ddiv(of_int(n1), of_int(den)); let r2 = ddiv(of_int(n2), of_int(den));
-    assert(0 <= r1 <= r2);
-    assert(dmul(r1, of_int(fee)) == pmul(r1, fee));
-    assert(dmul(r2, of_int(fee)) == pmul(r2, fee));
-    lemma_pmul_price_mono(r1, r2, fee);
-    assert(pmul(r1, fee) >= 0);
-    lemma_round_mono(pmul(r1, fee), pmul(r2, fee));
+    assert(0 <= r1 <= r2 <= D());
+    axiom_rmul_mono(r1, r2, fee);
+    assert(rmul(r1, of_int(fee)) >= 0);
+    lemma_round_mono(rmul(r1, of_int(fee)), rmul(r2, of_int(fee)));
 }
 
 // ---- ledger
